@@ -81,10 +81,17 @@ Section Lists.
     exec_op cfg R lm s self p o = Some s' -> same_lists s s'.
   Proof.
     intros H. destruct o; cbn [exec_op] in H.
-    - destruct (lm && qualified); [discriminate|].
-      match type of H with (if ?c then _ else _) = _ => destruct c end; [inversion H; subst; apply same_lists_refl|].
-      eapply same_lists_trans; [|eapply sl_do_hits; eassumption].
-      destruct (in_attack s); [sl|]. destruct qualified; sl.
+    - match type of H with (if ?c then _ else _) = _ => destruct c end; [inversion H; subst; apply same_lists_refl|].
+      destruct (in_attack s); [eapply sl_do_hits; eassumption|].
+      destruct qualified; [|eapply sl_do_hits; eassumption].
+      destruct lm; [discriminate|].
+      destruct (pop_slot (set_attack s (Some (key, self))) LAttackStart) as [sc s1] eqn:EP.
+      match type of H with match ?r with _ => _ end = _ => destruct r as [s2|] eqn:ER; [|discriminate] end.
+      assert (E1 : same_lists s s1).
+      { eapply same_lists_trans; [|replace s1 with (snd (pop_slot (set_attack s (Some (key, self))) LAttackStart)) by (rewrite EP; reflexivity); apply sl_pop_slot]. sl. }
+      assert (E2 : same_lists s s2).
+      { destruct sc; [eapply same_lists_trans; [exact E1|eapply GR; exact ER]|inversion ER; subst; exact E1]. }
+      eapply same_lists_trans; [exact E2|]. eapply same_lists_trans; [|eapply sl_do_hits; eassumption]. sl.
     - destruct lm; [discriminate|]. inversion H; subst. apply sl_end_attack.
     - destruct (get_unit _ _); [eapply sl_set_hp; eassumption|inversion H; subst; sl].
     - destruct (_ <=? _); inversion H; subst; sl.
@@ -296,10 +303,18 @@ Section DeadFinal.
     exec_op cfg R lm s self p o = Some s' -> dead_mono s s'.
   Proof.
     intros H. destruct o; cbn [exec_op] in H.
-    - destruct (lm && qualified); [discriminate|].
-      match type of H with (if ?c then _ else _) = _ => destruct c end; [inversion H; subst; apply dm_refl|].
-      eapply dm_trans; [|eapply dm_do_hits; eassumption].
-      destruct (in_attack s); [apply dm_refl|]. destruct qualified; apply dm_units; reflexivity.
+    - match type of H with (if ?c then _ else _) = _ => destruct c end; [inversion H; subst; apply dm_refl|].
+      destruct (in_attack s); [eapply dm_do_hits; eassumption|].
+      destruct qualified; [|eapply dm_do_hits; eassumption].
+      destruct lm; [discriminate|].
+      destruct (pop_slot (set_attack s (Some (key, self))) LAttackStart) as [sc s1] eqn:EP.
+      match type of H with match ?r with _ => _ end = _ => destruct r as [s2|] eqn:ER; [|discriminate] end.
+      assert (E1 : dead_mono s s1).
+      { eapply dm_trans; [apply (dm_units s (set_attack s (Some (key, self)))); reflexivity|].
+        replace s1 with (snd (pop_slot (set_attack s (Some (key, self))) LAttackStart)) by (rewrite EP; reflexivity). apply dm_pop_slot. }
+      assert (E2 : dead_mono s s2).
+      { destruct sc; [eapply dm_trans; [exact E1|eapply GR; exact ER]|inversion ER; subst; exact E1]. }
+      eapply dm_trans; [exact E2|]. eapply dm_trans; [|eapply dm_do_hits; eassumption]. apply dm_units; reflexivity.
     - destruct lm; [discriminate|]. inversion H; subst. apply dm_end_attack.
     - destruct (get_unit _ _); [eapply dm_set_hp; eassumption|inversion H; subst; apply dm_refl].
     - destruct (_ <=? _); inversion H; subst; apply dm_units; reflexivity.
